@@ -77,14 +77,14 @@ package session
 //@   requires forall j sharing.ID :: ctx.seeds[j] == nil || allocated(ctx.seeds[j])
 //@   ensures forall x V :: !culprit(err, x)
 //@   ensures err == nil ==> result != nil && result.holderID == ctx.holderID && result.sid == ctx.sid
-//@   ensures err == nil ==> forall t int :: 0 <= t && t < len(result.sortedQuorum) && result.sortedQuorum[t] != ctx.holderID ==> has(result.seeds, result.sortedQuorum[t]) && shk(result.seeds[result.sortedQuorum[t]]) == advance(absorb(absorb(cshakeInit(bytes(), strbytes(subContextDomainSeparatorLabel)), squeeze(shk(ctx.seeds[result.sortedQuorum[t]]), 32)), subQuorumData.Bytes()), 32)
+//@   ensures err == nil ==> forall t int :: 0 <= t && t < len(result.sortedQuorum) && result.sortedQuorum[t] != ctx.holderID && has(ctx.seeds, result.sortedQuorum[t]) ==> has(result.seeds, result.sortedQuorum[t]) && shk(result.seeds[result.sortedQuorum[t]]) == advance(absorb(absorb(cshakeInit(bytes(), strbytes(subContextDomainSeparatorLabel)), squeeze(shk(ctx.seeds[result.sortedQuorum[t]]), 32)), subQuorumData.Bytes()), 32)
 //@   ensures err == nil ==> forall j sharing.ID :: shk(ctx.seeds[j]) == old(shk(ctx.seeds[j]))
 //@   loop range(subQuorumSorted)
 //@     invariant forall j sharing.ID :: shk(ctx.seeds[j]) == old(shk(ctx.seeds[j]))
 //@     invariant forall j sharing.ID :: ctx.seeds[j] == nil || allocated(ctx.seeds[j])
 //@   loop range(subQuorumSorted)#2
 //@     invariant forall j sharing.ID :: ctx.seeds[j] == nil || allocated(ctx.seeds[j])
-//@     invariant forall t int :: 0 <= t && t < $i && subQuorumSorted[t] != ctx.holderID ==> has(subPairwiseSeeds, subQuorumSorted[t]) && allocated(subPairwiseSeeds[subQuorumSorted[t]]) && shk(subPairwiseSeeds[subQuorumSorted[t]]) == advance(absorb(absorb(cshakeInit(bytes(), strbytes(subContextDomainSeparatorLabel)), squeeze(shk(ctx.seeds[subQuorumSorted[t]]), 32)), subQuorumData.Bytes()), 32)
+//@     invariant forall t int :: 0 <= t && t < $i && subQuorumSorted[t] != ctx.holderID && has(ctx.seeds, subQuorumSorted[t]) ==> has(subPairwiseSeeds, subQuorumSorted[t]) && allocated(subPairwiseSeeds[subQuorumSorted[t]]) && shk(subPairwiseSeeds[subQuorumSorted[t]]) == advance(absorb(absorb(cshakeInit(bytes(), strbytes(subContextDomainSeparatorLabel)), squeeze(shk(ctx.seeds[subQuorumSorted[t]]), 32)), subQuorumData.Bytes()), 32)
 //@     invariant forall j sharing.ID :: shk(ctx.seeds[j]) == old(shk(ctx.seeds[j]))
-//@   assert before "subPairwiseSeeds[id] = newSeed": has(ctx.seeds, id) && shk(newSeed) == advance(absorb(absorb(cshakeInit(bytes(), strbytes(subContextDomainSeparatorLabel)), squeeze(shk(ctx.seeds[id]), 32)), subQuorumData.Bytes()), 32)
-//@   assert before "subPairwiseSeeds[id] = newSeed": forall t int :: 0 <= t && t < $i && subQuorumSorted[t] != ctx.holderID ==> subPairwiseSeeds[subQuorumSorted[t]] != newSeed && shk(subPairwiseSeeds[subQuorumSorted[t]]) == advance(absorb(absorb(cshakeInit(bytes(), strbytes(subContextDomainSeparatorLabel)), squeeze(shk(ctx.seeds[subQuorumSorted[t]]), 32)), subQuorumData.Bytes()), 32)
+//@   assert before "subPairwiseSeeds[id] = newSeed": has(ctx.seeds, id) ==> shk(newSeed) == advance(absorb(absorb(cshakeInit(bytes(), strbytes(subContextDomainSeparatorLabel)), squeeze(shk(ctx.seeds[id]), 32)), subQuorumData.Bytes()), 32)
+//@   assert before "subPairwiseSeeds[id] = newSeed": forall t int :: 0 <= t && t < $i && subQuorumSorted[t] != ctx.holderID && has(ctx.seeds, subQuorumSorted[t]) ==> subPairwiseSeeds[subQuorumSorted[t]] != newSeed && shk(subPairwiseSeeds[subQuorumSorted[t]]) == advance(absorb(absorb(cshakeInit(bytes(), strbytes(subContextDomainSeparatorLabel)), squeeze(shk(ctx.seeds[subQuorumSorted[t]]), 32)), subQuorumData.Bytes()), 32)
